@@ -1015,6 +1015,7 @@ class PathSens:
         self.payloads = payloads
         # node -> (fact, payload_fact): assumed result of the (opaque) call at that node
         self.assume = {}
+        self._rinfo = {}
 
     # facts: dict key=(path, local) -> ('var', idx) | ('const', v) | ('discr_of', key)
 
@@ -1156,6 +1157,49 @@ class PathSens:
             if v[0] == "discr_of" and v[1] == key:
                 del facts[k2]
 
+    def _replace_info(self, body):
+        """(targets, refs) for the `mem::replace(&mut X, v)` / `mem::take(&mut X)` calls of a body whose first
+        argument is a fresh exclusive borrow of a plain local X made for that call alone (`r1 = &mut X;
+        r = &mut *r1; replace(move r, v)`): targets = {bb: X}; refs = the borrow locals, whose creation does
+        not make X's value unknown because the call is their only use."""
+        info = self._rinfo.get(body.id)
+        if info is not None:
+            return info
+        targets, refs = {}, set()
+        for bb, t in body.calls():
+            f = fn_of(t) or {}
+            if f.get("def") not in ("std::mem::replace", "std::mem::take") or not t["args"]:
+                continue
+            a = t["args"][0]
+            if not is_place(a) or a["p"]["pr"]:
+                continue
+            chain = []
+            cur = a["p"]["l"]
+            x = None
+            for _ in range(3):
+                uses = uses_of_local(body, cur)
+                ds = body.whole_defs(cur)
+                if len(uses) != 1 or len(ds) != 1 or ds[0][2] != "assign" or ds[0][0] != bb:
+                    break
+                rv = ds[0][3]["rv"]
+                if rv["k"] != "ref" or not rv.get("mut"):
+                    break
+                chain.append(cur)
+                pr = rv["p"]["pr"]
+                if not pr:
+                    x = rv["p"]["l"]
+                    break
+                if len(pr) == 1 and pr[0]["k"] == "deref":
+                    cur = rv["p"]["l"]
+                    continue
+                break
+            if x is not None and x not in chain:
+                targets[bb] = x
+                refs |= set(chain)
+        info = (targets, refs)
+        self._rinfo[body.id] = info
+        return info
+
     def step(self, node, facts):
         """Yield (label, succ, facts') for a state at the *start* of node."""
         sup = self.sup
@@ -1163,9 +1207,14 @@ class PathSens:
         body = sup.body_of(node)
         blk = body.blocks[bb]
         facts = dict(facts)
+        rtargets, rrefs = self._replace_info(body)
         for s in blk["stmts"]:
             if s["k"] in ("assign", "setdiscr"):
                 self._kill_links(facts, (path, s["p"]["l"]))
+            if rrefs and s["k"] == "assign" and not s["p"]["pr"] and s["p"]["l"] in rrefs:
+                # exclusive borrow used only by a modelled mem::replace/take: the target keeps its facts
+                self._clear(facts, (path, s["p"]["l"]))
+                continue
             self._stmt(facts, path, s)
         t = blk["term"]
         k = t["k"]
@@ -1235,6 +1284,22 @@ class PathSens:
                 # ordinary return edge of an opaque call
                 self._kill_links(f2, dkey)
                 self._clear(f2, dkey)
+                if bb in rtargets and not dest["pr"]:
+                    # `old = mem::replace(&mut X, v)`: the call yields X's value and stores v
+                    xkey = (path, rtargets[bb])
+                    old = facts.get(xkey)
+                    self._kill_links(f2, xkey)
+                    self._clear(f2, xkey)
+                    if old is not None and old[0] in ("const", "var"):
+                        f2[dkey] = old
+                    if len(t["args"]) > 1:
+                        nf = self._operand_fact(facts, path, t["args"][1])[0]
+                        if nf is not None and nf[0] in ("const", "var"):
+                            f2[xkey] = nf
+                    elif body.local_ty(rtargets[bb]) == "bool":
+                        f2[xkey] = ("const", 0)
+                    out.append((lab, succ, f2))
+                    continue
                 forced = self.assume.get(node)
                 if forced is not None and not dest["pr"]:
                     f2[dkey] = forced[0]
@@ -1613,4 +1678,71 @@ def switches_on_carriers(sup, carr):
             if s["k"] == "assign" and not s["p"]["pr"] and s["p"]["l"] == dl and s["rv"]["k"] == "discr":
                 if (n[0], s["rv"]["p"]["l"]) in carr:
                     out.append((n, t, "discr"))
+    return out
+
+
+class KindTest:
+    """A branch on the io::ErrorKind returned by one io::Error::kind() call.
+    edges: [(label, dst_node, kinds)] out of `node`; kinds is the set of variant names for which the edge is
+    taken, or None for 'every other kind'."""
+
+    def __init__(self, node, kind_node, kind_call, form, edges):
+        self.node, self.kind_node, self.kind_call, self.form, self.edges = node, kind_node, kind_call, form, edges
+
+    def named(self):
+        return sorted({k for _, _, ks in self.edges if ks for k in ks})
+
+    def __repr__(self):
+        return f"KindTest({self.form} {self.named()} at {self.node})"
+
+
+def _const_variant(sup, node, op):
+    tr = strace(sup, node, op)
+    if tr.origin and tr.origin[0] == "const":
+        return tr.origin[1].get("ref_variant") or tr.origin[1].get("variant")
+    if tr.origin and tr.origin[0] == "agg":
+        return tr.origin[1]["rv"].get("variant")
+    return None
+
+
+def kind_tests(sup):
+    """Every branch on the result of an io::Error::kind() call in the supergraph, whatever its spelling:
+    `kind() == K` / `kind() != K` (PartialEq call, then a switch on the bool) or `match`/`matches!`/`if let`
+    on the kind (a switch on its discriminant)."""
+    adt = sup.crate.adts.get("std::io::ErrorKind")
+    names = {v.get("discr", v["idx"]): v["name"] for v in adt["variants"]} if adt else {}
+    calls = sup.calls()
+    out = []
+    for n, b, t in calls:
+        f = fn_of(t) or {}
+        if f.get("def") != "std::io::Error::kind" or t["dest"]["pr"]:
+            continue
+        carr = carriers(sup, n, t["dest"]["l"])
+        for sn, st, how in switches_on_carriers(sup, carr):
+            if how != "discr":
+                continue
+            edges = [(v, (sn[0], x), {names.get(v, f"#{v}")}) for v, x in st["targets"]]
+            edges.append(("otherwise", (sn[0], st["otherwise"]), None))
+            out.append(KindTest(sn, n, t, "discr", edges))
+        for en, eb, et in calls:
+            ef = fn_of(et) or {}
+            if not (ef.get("trait") == "std::cmp::PartialEq" and "ErrorKind" in ef.get("self_ty", "") and ef.get("name") in ("eq", "ne") and len(et["args"]) == 2):
+                continue
+            mine = [i for i, a in enumerate(et["args"]) if is_place(a) and (en[0], a["p"]["l"]) in carr]
+            if len(mine) != 1 or et["dest"]["pr"]:
+                continue
+            cv = _const_variant(sup, en, et["args"][1 - mine[0]])
+            if cv is None:
+                continue
+            rc = carriers(sup, en, et["dest"]["l"])
+            for sn, sw, how in switches_on_carriers(sup, rc):
+                if how != "value":
+                    continue
+                zero = [x for v_, x in sw["targets"] if v_ == 0]
+                if not zero:
+                    continue
+                e_false = (0, (sn[0], zero[0]))
+                e_true = ("otherwise", (sn[0], sw["otherwise"]))
+                holds, fails = (e_true, e_false) if ef["name"] == "eq" else (e_false, e_true)
+                out.append(KindTest(sn, n, t, ef["name"], [(holds[0], holds[1], {cv}), (fails[0], fails[1], None)]))
     return out
